@@ -12,7 +12,7 @@ from .effects import Effects
 from .lin import Lin, Sym
 from .rules_C16 import CACHE_KINDS, check_counter, classify
 from .shared_state import (int_constants, keyed_memo_key_mismatch, CacheInfo, SharedWrite, World, history_definite, recognise_cache, recognise_global_memo, recognise_slot_memo,
-                           value_dependencies, write_is_definite)
+                           value_dependencies, write_is_definite, stale_slot_read)
 
 
 # ---------------------------------------------------------------------------------
@@ -501,6 +501,12 @@ def check_shared_writes(ctx, w: World, om: OriginModel) -> None:
                        f"functions naming it: {[f.split('.', 2)[-1] for f in sd.functions]}; no value survives from one call into the next")
             else:
                 f, line, text = sd.problems[0] if sd.problems else ("?", 0, "buffer not found by name")
+                stale = None
+                for o_ in owners:
+                    stale = stale or stale_slot_read(w.model, o_, obj.rsplit(".", 1)[-1])
+                if stale:
+                    _bad("C17.1", f"module-level container {obj} carries a value from one call into the next", where, stale)
+                    continue
                 _unk("C17.1", f"shared buffer {obj}: `{text}` in {f} may read what an earlier call left behind", f"{w.rel_of(f) if f in w.model.funcs else ''}:{line}",
                         f"written by {[o.split('.', 2)[-1] for o in owners]}; the written-before-read discipline is not established, so history "
                         f"independence of the callers is not decided")
